@@ -988,10 +988,16 @@ type ServerOut struct {
 	FrameEnds []int
 }
 
+// OmitCode as End.CodeStr makes a Connect error object carry no "code" member at all.
+const OmitCode = "<no code>"
+
 func connectErrorJSON(e *End) map[string]any {
 	m := map[string]any{"code": CodeName(e.Code)}
 	if e.CodeStr != "" {
 		m["code"] = e.CodeStr
+	}
+	if e.CodeStr == OmitCode {
+		delete(m, "code") // an error object without any code
 	}
 	if e.Message != "" {
 		m["message"] = e.Message
